@@ -1,8 +1,9 @@
 (* Property C03 - the model is the intrinsic scene convolved with the PSF exactly as supplied.
    Statements only; proofs in Proofs/ConvProofs.v, Proofs/FluxProofs.v and Base/Dft.v over ramps,
    point-source code and scene assembly REGENERATED from rendering.py.  PARTIAL: that
-   irfft2(rfft2 a * rfft2 b) is the circular convolution of a and b is carried by the numerical
-   correspondence of the DFT model and by the implementation oracle, not by a theorem here. *)
+   irfft2(rfft2 a * rfft2 b) is the circular convolution of a and b is proved for the 1-D complex
+   transform on Z_N (Base/Dft.v); its 2-D half-plane form is carried by the numerical correspondence
+   of the irfft2 model (C01) and by the implementation oracle. *)
 From Coq Require Import Reals ZArith.
 From Coquelicot Require Import Coquelicot.
 From PS Require Import Base.RBase Base.Dft Gen.Ramps Gen.Formulas Gen.RenderGlue Proofs.ConvProofs Proofs.FluxProofs.
@@ -44,6 +45,23 @@ Theorem C03_conv_preserves_total : forall N F PSF, (0 < N)%nat ->
   rsum (fun r => rsum (fun c => irfft2 N (fun ky kx => Cmult (F ky kx) (PSF ky kx)) r c) N) N = Re (Cmult (F 0%nat 0%nat) (PSF 0%nat 0%nat)).
 Proof. exact conv_fft_total. Qed.
 
+(* FFT convolution IS spatial circular convolution: the transform pair on Z_N is inverse to each other and the inverse
+   transform of a product of transforms is the circular convolution (1-D complex transform; every N >= 1, all signals) *)
+Theorem C03_dft_inversion : forall N a x, (0 < N)%nat -> (x < N)%nat -> idft N (dft N a) x = a x.
+Proof. exact (fun N a x HN Hx => idft_dft N HN a x Hx). Qed.
+
+Theorem C03_convolution_theorem : forall N a b x, (0 < N)%nat -> (x < N)%nat ->
+  idft N (fun k => Cmult (dft N a k) (dft N b k)) x = circ_conv N a b x.
+Proof. exact (fun N a b x HN Hx => conv_via_dft N a b x HN Hx). Qed.
+
+(* convolving with a unit impulse at p shifts the other signal by p - never mirrors it *)
+Theorem C03_impulse_convolution_is_shift : forall N p b x, (0 < N)%nat -> (p < N)%nat ->
+  circ_conv N (delta_at p) b x = b ((x + (N - p)) mod N)%nat.
+Proof. exact (fun N p b x HN Hp => circ_conv_delta N p b x HN Hp). Qed.
+
+Print Assumptions C03_dft_inversion.
+Print Assumptions C03_convolution_theorem.
+Print Assumptions C03_impulse_convolution_is_shift.
 Print Assumptions C03_ramp_form.
 Print Assumptions C03_ramp_is_integer_shift.
 Print Assumptions C03_ramp_even_half_pixel.
